@@ -110,8 +110,9 @@ def check(ck):
                 arg_text(ca, None, "coercer") == "field_definition.arguments_coercer" and unparse(a[2]) == "execution_context.context" and unparse(a[3]) == "info"
             ck.ob("create_source_event_stream: the generator gets (root value, spec-coerced arguments, context, info)", ok, c, sub[0], construct="source:operands")
         rs = cv.raises()
-        nd = [r for r in rs if "is not defined" in unparse(r.exc)]
-        ns = [r for r in rs if "source event stream" in unparse(r.exc)]
+        # identified by their guards (the wording of the messages is free)
+        nd = [r for r in rs if ("field_definition", "F") in cv.conditions(r)]
+        ns = [r for r in rs if ("field_definition.subscribe", "F") in cv.conditions(r)]
         ck.ob("create_source_event_stream: an unknown subscription field is an error (the catch-all renders it), not a call",
               len(nd) == 1 and ("field_definition", "F") in cv.conditions(nd[0]) and sub and ("field_definition", "T") in cv.conditions(sub[0]), c, nd[0] if nd else c.node, construct="source:unknown-field")
         ck.ob("create_source_event_stream: a field without a registered generator is an error, not a call",
